@@ -42,7 +42,9 @@
      - CloseSend returns nil.
      - handler Send returns nil while the handler is running.
      - client Send while the handler has not returned: nil, or StreamClosed after CloseSend
-       (the property only says what Send returns once the stream has ended).                                                          *)
+       (the property only says what Send returns once the stream has ended).
+     - Not modelled: client-side context cancellation, transport failure, and the WebSocket
+       server's 500 ms close deadline (a client idle for longer after the handler's return).  *)
 EXTENDS Naturals, Sequences, FiniteSets, TLC
 
 CONSTANTS Cap,      \* queue capacity per direction, in messages
@@ -276,7 +278,7 @@ ReceiveAfterCloseSend ==
 ReceiveAfterReturnReturns ==
   (hState = "returned" /\ cPC = "called" /\ cOp = "recv") ~> (cPC = "idle")
 
-\* vacuity witnesses (negations are checked to be violated by tools/props/c14.py --selfcheck)
+\* vacuity witnesses: tools/props/c14.py requires TLC to violate each of them (reachability)
 WitTermErr == ~(cTerm \notin {"none", "eof"} /\ Len(recvC) >= 2)
 WitHEOF == ~(hEOF /\ Len(recvS) >= 2 /\ Len(recvC) >= 1)
 WitSendRace == ~(cPC = "done" /\ cOp = "send" /\ cRes.r = "eof" /\ cTerm = "none")
